@@ -138,6 +138,16 @@ func VerifH_TreeIsVersionedMap() {
 	if freeze >= 1 {
 		verifFreeze(pinned0)
 	}
+	// incts: the logical time is advanced without data (IncreaseTs, as the indexer does for
+	// transactions without indexable entries) before the symbolic bulks: the root is replaced by
+	// setTs, which must not share mutable state with the pinned tree
+	if verifrt.Param("incts") == 1 {
+		root, err := t.root.setTs(m.ts + 1)
+		verifrt.Assert(err == nil, "logical time advanced")
+		t.root = root
+		m.ts++
+		verifrt.Assert(t.root.ts() == m.ts, "root carries the new logical time")
+	}
 	var pinned node
 	var pinnedModel *verifModel
 	for b := 0; b < bulks; b++ {
